@@ -120,6 +120,7 @@ func (e *Exec) makeClosure(s *State, x *ssa.MakeClosure) Value {
 			s.priv = keep
 		}
 	}
+	e.closureRequires(s, x, cl.Fn)
 	n := TS.Fresh("closure_"+cl.Fn.Name(), RefSort)
 	s.assume(App("<", "Bool", n, IntLit(0))) // function values live outside the object heap
 	if e.closures == nil {
@@ -346,6 +347,12 @@ func (e *Exec) applyContract(s *State, ins ssa.Instruction, fc *FuncContract, si
 			idx := len(callee.Params) + i
 			if idx < len(args) {
 				vars["&"+fvv.Name()] = specVar{args[idx], fvv.Type()}
+				// the captured variable itself, by name, with its value at the call
+				func() {
+					defer func() { recover() }()
+					t := derefType(fvv.Type())
+					vars[fvv.Name()] = specVar{e.readLoc(s, e.resolve(args[idx], t)), t}
+				}()
 			}
 		}
 	}
@@ -593,7 +600,7 @@ func (e *Exec) builtin(s *State, ins ssa.Instruction, b *ssa.Builtin, c *ssa.Cal
 		case *ArrayV:
 			return e.idx(x.N)
 		case *Node:
-			if x.Sort == "Str" {
+			if isStrSort(x.Sort) {
 				l := e.strLen(x)
 				if e.mode == ModeInt {
 					s.assume(And(App(">=", "Bool", l, IntLit(0)), App("<=", "Bool", l, IntLit(maxLen))))
@@ -884,7 +891,7 @@ func (e *Exec) invoke(s *State, ins ssa.Instruction, c *ssa.CallCommon, args []V
 		return e.applyContract(s, ins, fc, fsig, nil, all, ins.Pos())
 	}
 	if c.Method.Name() == "Error" && sig.Params().Len() == 0 {
-		return TS.Fresh("errmsg", "Str")
+		return TS.Fresh("errmsg", strSort())
 	}
 	if e.v.db.NoEffect["invoke:"+key] {
 		if t := sigResult(sig); t != nil {
@@ -983,4 +990,128 @@ func (e *Exec) sortForHeapName(name string) string {
 		}
 	}
 	return ""
+}
+
+// closureRequires: preconditions of a closure under contract speak about variables it captures.
+// They are proved where the closure is created, and the captured variables they mention must be
+// frozen: assigned only before the creation, never inside any closure ("frozen captures").
+func (e *Exec) closureRequires(s *State, mc *ssa.MakeClosure, fn *ssa.Function) {
+	if e.quiet > 0 {
+		return
+	}
+	key := e.v.contractKeyFor(fn)
+	fc := e.v.db.Funcs[key]
+	if fc == nil || len(fc.Requires) == 0 {
+		return
+	}
+	// frozen check for the captured variables named in the requires clauses
+	for i, fv := range fn.FreeVars {
+		mentioned := false
+		for _, r := range fc.Requires {
+			if mentionsIdent(r.Text, fv.Name()) {
+				mentioned = true
+			}
+		}
+		if !mentioned || i >= len(mc.Bindings) {
+			continue
+		}
+		a, ok := mc.Bindings[i].(*ssa.Alloc)
+		if !ok {
+			e.unsupported("closure %s: precondition on a capture that is not a local variable (%s)", fn.Name(), fv.Name())
+		}
+		if why := notFrozen(a, mc); why != "" {
+			e.unsupported("closure %s: precondition mentions captured variable %s which is not frozen: %s", fn.Name(), fv.Name(), why)
+		}
+	}
+	cname := e.v.closureName(fn)
+	for i, r := range fc.Requires {
+		aboutParam := false
+		for _, p := range fn.Params {
+			if mentionsIdent(r.Text, p.Name()) {
+				aboutParam = true
+			}
+		}
+		if aboutParam {
+			continue // a precondition on arguments: an obligation of each call, not of the creation
+		}
+		g := e.evalClauseCur(r, s, e.entry, nil)
+		e.obls = append(e.obls, &Obligation{Name: fmt.Sprintf("%s/closure:%s/requires#%d", e.funcKey, cname, i+1), Kind: "requires-at-creation",
+			Pos: mc.Pos(), Goal: g, Hyp: s.pc, Func: e.funcKey, Text: r.Text, Props: unionProps(orProps(r.Props, orProps(fc.Props, e.props))), Mode: e.mode, exec: e})
+	}
+}
+
+func mentionsIdent(text, name string) bool {
+	for i := 0; i+len(name) <= len(text); i++ {
+		if text[i:i+len(name)] == name {
+			before := i == 0 || !isIdentChar(text[i-1])
+			after := i+len(name) == len(text) || !isIdentChar(text[i+len(name)])
+			if before && after && (i == 0 || text[i-1] != '.') {
+				return true
+			}
+		}
+	}
+	return false
+}
+
+// notFrozen: "" if every store to the variable precedes (dominates) the closure creation and no
+// closure of the function stores to it.
+func notFrozen(a *ssa.Alloc, mc *ssa.MakeClosure) string {
+	fn := a.Parent()
+	for _, b := range fn.Blocks {
+		for idx, ins := range b.Instrs {
+			st, ok := ins.(*ssa.Store)
+			if !ok || st.Addr != a {
+				continue
+			}
+			if b == mc.Block() {
+				for j, x := range b.Instrs {
+					if x == ssa.Instruction(mc) && j < idx {
+						return "assigned after the closure is created"
+					}
+				}
+				if reachableFrom(mc.Block())[b] {
+					return "assigned in a loop around the closure creation"
+				}
+				continue
+			}
+			if reachableFrom(mc.Block())[b] {
+				return "assigned on a path after the closure is created"
+			}
+		}
+	}
+	var rec func(f *ssa.Function) string
+	rec = func(f *ssa.Function) string {
+		for _, af := range f.AnonFuncs {
+			for _, b := range af.Blocks {
+				for _, ins := range b.Instrs {
+					if st, ok := ins.(*ssa.Store); ok {
+						if fv, ok := st.Addr.(*ssa.FreeVar); ok && fv.Name() == a.Comment {
+							return "assigned inside closure " + af.Name()
+						}
+					}
+				}
+			}
+			if r := rec(af); r != "" {
+				return r
+			}
+		}
+		return ""
+	}
+	return rec(fn)
+}
+
+// reachableFrom: blocks reachable from the successors of b.
+func reachableFrom(b *ssa.BasicBlock) map[*ssa.BasicBlock]bool {
+	seen := map[*ssa.BasicBlock]bool{}
+	stack := append([]*ssa.BasicBlock(nil), b.Succs...)
+	for len(stack) > 0 {
+		x := stack[len(stack)-1]
+		stack = stack[:len(stack)-1]
+		if seen[x] {
+			continue
+		}
+		seen[x] = true
+		stack = append(stack, x.Succs...)
+	}
+	return seen
 }
